@@ -90,9 +90,10 @@ def check_vmc(ck):
         cfg = make_configs(ck.rng, nconf, nelec, periodic)
         wf = GaussWF(alpha=0.8)
         log = []
-        acc = {"o": RecAcc(obs_fn, {"a": (), "v": (2,), "m": (2, 3)}, log)}
+        reuse = bool(it % 2)  # every other case: the observable hands back the same preallocated arrays on every call
+        acc = {"o": RecAcc(obs_fn, {"a": (), "v": (2,), "m": (2, 3)}, log, reuse=reuse)}
         seed_np(ck)
-        inp = {"nconf": nconf, "nelec": nelec, "nsteps": nsteps, "npartitions": npart if parallel else None, "periodic": periodic}
+        inp = {"nconf": nconf, "nelec": nelec, "nsteps": nsteps, "npartitions": npart if parallel else None, "periodic": periodic, "observable_reuses_its_output_arrays": reuse}
         if parallel:
             ok, res = ck.guarded(lambda: mc.vmc_parallel(wf, cfg, 0.3, nsteps, acc, FakeClient(), npart), "vmc_average", S_VMC, inp)
         else:
